@@ -795,4 +795,107 @@ func runTree(r *ev.Run, id string, idx int) {
 			}
 		}
 	}
+
+	// ---- ForeachChunk over generated trees.  The documented contract (filereader.go):
+	// fn is never given a bytesRef part, and schemaPath leads from the root to the schema
+	// blob that holds the part.  When every bytesRef part of the tree spans its whole
+	// referent, "each chunk of fr, in order" also pins the content: the chunks'
+	// blob[offset:offset+size] / zeros concatenate to what the tree denotes.  For trees
+	// with sub-ranged bytesRef parts the doc does not say whether chunks are clipped to
+	// the window: recorded, not judged.
+	if nviol < 4 {
+		fr5, err := schema.NewFileReader(ctx, st, root.ref)
+		if err != nil {
+			return
+		}
+		defer fr5.Close()
+		subranged := looseBytesPart(root)
+		var cat []byte
+		bad, badWhat := "", ""
+		calls := 0
+		ferr := fr5.ForeachChunk(ctx, func(path []blob.Ref, p schema.BytesPart) error {
+			calls++
+			if bad != "" {
+				return nil
+			}
+			if p.BytesRef.Valid() {
+				bad, badWhat = "bytesref-part", fmt.Sprintf("call %d passed a part with bytesRef %s", calls, p.BytesRef)
+				return nil
+			}
+			if len(path) == 0 || path[0] != root.ref {
+				bad, badWhat = "path", fmt.Sprintf("call %d: schemaPath %v does not start at the root", calls, path)
+				return nil
+			}
+			for i := 1; i < len(path); i++ {
+				parent := schemaBlobs[path[i-1].String()]
+				found := false
+				if parent != nil {
+					for _, q := range parent.parts {
+						if q.kind == kBytes && q.child.ref == path[i] {
+							found = true
+						}
+					}
+				}
+				if !found {
+					bad, badWhat = "path", fmt.Sprintf("call %d: schemaPath %v: %s is not a bytesRef of %s", calls, path, path[i], path[i-1])
+					return nil
+				}
+			}
+			holder := schemaBlobs[path[len(path)-1].String()]
+			found := false
+			if holder != nil {
+				for _, q := range holder.parts {
+					switch {
+					case q.kind == kBlob && p.BlobRef.Valid() && q.b.ref == p.BlobRef && uint64(q.off) == p.Offset && uint64(q.size) == p.Size:
+						found = true
+					case q.kind == kHole && !p.BlobRef.Valid() && uint64(q.size) == p.Size:
+						found = true
+					}
+				}
+			}
+			if !found {
+				bad, badWhat = "path", fmt.Sprintf("call %d: part {blobRef %v offset %d size %d} is not a part of the last schemaPath element %s", calls, p.BlobRef, p.Offset, p.Size, path[len(path)-1])
+				return nil
+			}
+			if p.BlobRef.Valid() {
+				b := dataBlobs[p.BlobRef.String()]
+				cat = append(cat, b.data[p.Offset:p.Offset+p.Size]...)
+			} else {
+				cat = append(cat, make([]byte, p.Size)...)
+			}
+			return nil
+		})
+		r.Eval(1)
+		r.Count("tree_foreachchunk", 1)
+		switch {
+		case ferr != nil:
+			viol("foreachchunk/tree-error", "ForeachChunk", "%v", ferr)
+		case bad != "":
+			viol("foreachchunk/tree-"+bad, "ForeachChunk", "%s", badWhat)
+		case !subranged:
+			r.Note("read_kinds", "foreachchunk-tree")
+			if root.depth > 1 {
+				r.Note("read_kinds", "foreachchunk-nested-tree")
+			}
+			if !bytes.Equal(cat, want) {
+				viol("foreachchunk/tree-content", "ForeachChunk", "the %d chunks passed denote %d bytes %s, the tree (no sub-ranged bytesRef part) denotes %d bytes %s; first difference at %d", calls, len(cat), show(cat), size, show(want), firstDiff(cat, want))
+			}
+		case bytes.Equal(cat, want):
+			r.Note("foreachchunk_subranged_bytesref(not judged)", "chunks-equal-denotation")
+		default:
+			r.Note("foreachchunk_subranged_bytesref(not judged)", "chunks-cover-whole-referents")
+		}
+	}
+}
+
+// looseBytesPart reports whether some bytesRef part of t uses less than its referent.
+func looseBytesPart(t *tnode) bool {
+	for _, p := range t.parts {
+		if p.kind == kBytes {
+			if p.off != 0 || p.size != len(p.child.den) || looseBytesPart(p.child) {
+				return true
+			}
+		}
+	}
+	return false
 }
